@@ -50,6 +50,12 @@ pub struct NetCfg {
     /// enumerated faults: indices (per direction, 0 = towards endpoint 0) of datagrams to drop
     pub drop_idx: [BTreeSet<u64>; 2],
     pub dup_idx: [BTreeSet<u64>; 2],
+    /// per mille of genuine datagrams for which an additional forged variant (bit flips,
+    /// truncation, extension, cross-connection splice, replay from a foreign address) is injected;
+    /// uses its own random stream so that it does not perturb the other faults
+    pub inject_forged_pm: u32,
+    /// per mille of genuine datagrams replayed verbatim later (possibly much later)
+    pub replay_pm: u32,
 }
 
 impl Default for NetCfg {
@@ -68,6 +74,8 @@ impl Default for NetCfg {
             mtu_schedule: vec![],
             drop_idx: [BTreeSet::new(), BTreeSet::new()],
             dup_idx: [BTreeSet::new(), BTreeSet::new()],
+            inject_forged_pm: 0,
+            replay_pm: 0,
         }
     }
 }
@@ -333,6 +341,13 @@ pub struct World {
     /// separate streams so that driver-only variations do not perturb the network faults
     pub rng_drv: Rng,
     pub rng_late: Rng,
+    pub rng_inject: Rng,
+    /// turn on history recording for applications created later (server side)
+    pub record_history_default: bool,
+    /// recent genuine datagrams (for splices)
+    pub recent: Vec<Dgram>,
+    /// gid -> whether a delivery of it was fully authenticated already
+    pub counted: BTreeMap<u64, bool>,
     pub clock: Arc<std::sync::atomic::AtomicU64>,
     pub led: Ledger,
     pub mon: Mon,
@@ -438,6 +453,10 @@ impl World {
             rng: Rng::new(seed),
             rng_drv: Rng::new(seed ^ 0xD51),
             rng_late: Rng::new(seed ^ 0x1A7E),
+            rng_inject: Rng::new(seed ^ 0x1213C7),
+            record_history_default: false,
+            recent: Vec::new(),
+            counted: BTreeMap::new(),
             clock,
             led: Ledger::default(),
             mon: Mon::new(lane),
@@ -636,6 +655,100 @@ impl World {
                 opair: origin.and_then(|ch| self.eps[from_ep].conns.get(&ch).map(|c| c.pair)),
             });
         }
+        self.inject_variants(from_ep, origin, src, dst, ecn, &data, gid);
+    }
+
+    /// Additional hostile traffic derived from a genuine datagram (never replaces it).
+    fn inject_variants(&mut self, from_ep: usize, origin: Option<usize>, src: SocketAddr, dst: SocketAddr, ecn: Option<EcnCodepoint>, data: &[u8], gid: u64) {
+        let opair = origin.and_then(|ch| self.eps[from_ep].conns.get(&ch).map(|c| c.pair));
+        let base = Dgram { at: 0, seq: 0, src, dst, ecn, data: data.to_vec(), origin: origin.map(|c| (from_ep, c)), gid, copy: 0, forged: false, intact: data.len(), opair };
+        if self.netcfg.replay_pm > 0 && self.rng_inject.permille(self.netcfg.replay_pm) {
+            // verbatim replay, later
+            let mut d = base.clone();
+            d.at = self.now + self.netcfg.latency_ns + self.rng_inject.below(3_000_000_000);
+            d.copy = 100;
+            self.net.seq += 1;
+            d.seq = self.net.seq;
+            self.net.fired.inc("replay");
+            self.net.q.push(d);
+        }
+        // (only single-packet datagrams: in a coalesced datagram the packets that the forgery
+        // leaves untouched are still genuine and are legitimately processed)
+        if self.netcfg.inject_forged_pm > 0 && self.rng_inject.permille(self.netcfg.inject_forged_pm) && crate::wire::split_types(data).len() == 1 {
+            let mut d = base.clone();
+            d.forged = true;
+            d.intact = 0;
+            d.copy = 200;
+            d.origin = None;
+            d.opair = None;
+            d.at = self.now + self.netcfg.latency_ns + self.rng_inject.below(50_000_000);
+            match self.rng_inject.below(5) {
+                0 => {
+                    let flips = 1 + self.rng_inject.below(8);
+                    for _ in 0..flips {
+                        let i = self.rng_inject.usize(d.data.len());
+                        d.data[i] ^= 1 << self.rng_inject.below(8);
+                    }
+                    self.net.fired.inc("forge_flip");
+                }
+                1 => {
+                    if self.lane == Lane::Null {
+                        // plaintext payloads expose reset tokens (a packet ending in
+                        // NEW_CONNECTION_ID, cut before its tag, *is* a valid stateless reset):
+                        // truncation forgeries only make sense against real packet protection
+                        return;
+                    }
+                    let keep = 1 + self.rng_inject.usize(d.data.len());
+                    d.data.truncate(keep);
+                    // a truncated datagram may still contain whole genuine packets: not a forgery
+                    // of those; only inject cuts inside the first packet
+                    let first_len = crate::wire::split_types(data).first().map_or(data.len(), |x| x.1);
+                    if keep >= first_len {
+                        return;
+                    }
+                    self.net.fired.inc("forge_truncate");
+                }
+                2 => {
+                    // splice: header bytes (incl. destination CID) of another recent datagram to
+                    // the same destination, body of this one
+                    let cands: Vec<usize> = (0..self.recent.len()).filter(|&i| self.recent[i].dst == dst && self.recent[i].opair != opair).collect();
+                    if cands.is_empty() {
+                        return;
+                    }
+                    let o = &self.recent[cands[self.rng_inject.usize(cands.len())]];
+                    let n = 21.min(o.data.len()).min(d.data.len());
+                    d.data[..n].copy_from_slice(&o.data[..n]);
+                    self.net.fired.inc("forge_splice");
+                }
+                3 => {
+                    // random garbage of the same length with a plausible first byte
+                    let mut g = self.rng_inject.bytes(d.data.len());
+                    g[0] = d.data[0];
+                    d.data = g;
+                    self.net.fired.inc("forge_garbage");
+                }
+                _ => {
+                    // body kept, authentication tag altered
+                    let n = d.data.len();
+                    let i = n - 1 - self.rng_inject.usize(16.min(n - 1));
+                    d.data[i] ^= 0x55;
+                    self.net.fired.inc("forge_tag");
+                }
+            }
+            if d.data == data {
+                // the mutation cancelled itself out (same bit flipped twice): not a forgery
+                return;
+            }
+            self.net.seq += 1;
+            d.seq = self.net.seq;
+            self.net.q.push(d);
+        }
+        if self.recent.len() < 64 {
+            self.recent.push(base);
+        } else {
+            let i = self.rng_inject.usize(64);
+            self.recent[i] = base;
+        }
     }
 
     /// Inject an arbitrary datagram (harness as attacker / hostile peer).
@@ -690,13 +803,50 @@ impl World {
                 }
                 if let Some(conn) = self.eps[ei].conns.get_mut(&ch.0) {
                     self.mon.before_conn_event(ei, ch.0, &d, conn);
+                    let pre_rx = format!("{:?}", conn.c.stats().frame_rx);
+                    let pre_authed = conn.c.verif_probe().authed_packets;
                     conn.c.handle_event(cev);
+                    if !d.forged {
+                        let npk = crate::wire::split_types(&d.data).len() as u64;
+                        let authed = conn.c.verif_probe().authed_packets - pre_authed;
+                        match self.counted.get(&d.gid).copied() {
+                            Some(true) => {
+                                // this exact datagram was fully processed before: a second
+                                // delivery must change no frame counter
+                                self.mon.cnt.inc("c04.duplicate_delta_checks");
+                                let post_rx = format!("{:?}", conn.c.stats().frame_rx);
+                                if post_rx != pre_rx {
+                                    self.led.violate("C04", format!("conn {ei}/{}: a datagram delivered a second time changed frame_rx from {pre_rx} to {post_rx}", ch.0));
+                                }
+                            }
+                            _ => {
+                                self.counted.insert(d.gid, authed >= npk && npk > 0);
+                            }
+                        }
+                    } else if d.intact == 0 {
+                        // nothing of this datagram is genuine: it must not be authenticated
+                        self.mon.cnt.inc("c04.forged_delivered");
+                        let authed = conn.c.verif_probe().authed_packets - pre_authed;
+                        let post_rx = format!("{:?}", conn.c.stats().frame_rx);
+                        if authed > 0 {
+                            // unprotected packet types (Retry, Version Negotiation) bump the counter
+                            // before they are validated; noted, judged by their effects only
+                            self.mon.cnt.inc("c04.forged_counted_as_authenticated");
+                        }
+                        if post_rx != pre_rx {
+                            let diff: Vec<String> = pre_rx.split(", ").zip(post_rx.split(", ")).filter(|(a, b)| a != b).map(|(a, b)| format!("{a} -> {b}")).collect();
+                            self.led.violate("C04", format!("conn {ei}/{}: a forged datagram ({} bytes, first byte {:02x}) was acted on, frame_rx changed: {diff:?}", ch.0, d.data.len(), d.data[0]));
+                        }
+                    }
                     self.mon.after_conn_event(ei, ch.0, &d, conn, &mut self.led);
                 } else {
                     self.led.violate("C09", format!("endpoint {ei} routed a datagram to unknown handle {}", ch.0));
                 }
             }
             Some(DatagramEvent::NewConnection(incoming)) => {
+                if !d.forged {
+                    self.counted.insert(d.gid, true);
+                }
                 self.mon.after_deliver(ei, &d, None, &self.eps[ei], &mut self.led);
                 self.on_incoming(ei, incoming, &mut buf);
             }
@@ -772,6 +922,7 @@ impl World {
             Ok((ch, mut c)) => {
                 let mut app = App::new(spec.app.clone(), Side::Server, pair, hash64(self.seed, &[b"sapp", &pair.to_le_bytes()]));
                 app.dgram_send_buf = Some(spec.tcfg.dgram_send_buf);
+                app.record_history = self.record_history_default;
                 app.start(&mut c, &mut self.led);
                 self.mon.on_conn_created(ei, ch.0, pair, Side::Server, remote);
                 self.mon.note_created(ei, ch.0, &c, self.now);
